@@ -344,6 +344,7 @@ type Enc struct {
 	heapInits map[string]Term
 	extraDecls map[string]string
 	keepDefs   bool
+	racRunes   []int64
 	vals      map[ssa.Value]Val
 	outState  map[*ssa.BasicBlock]*State
 	edgeGuard map[[2]int]Term
